@@ -1,6 +1,8 @@
 package chain
 
 import (
+	"0chain.net/chaincore/node"
+	"0chain.net/core/viper"
 	"context"
 	"fmt"
 	"sync"
@@ -130,3 +132,85 @@ func vC36Run(R, W int) {
 func VerifC36_wide() { vC36Run(2, 3) }
 func VerifC36_deep() { vC36Run(4, 2) }
 func VerifC36_full() { vC36Run(3, 3) }
+
+type vC36NoViewChange struct{}
+
+func (vC36NoViewChange) ViewChange(ctx context.Context, lfb *block.Block) error { return nil }
+
+// vC36FinalizeWalk: Chain.finalizeRound on a chain C1..C4 whose block A5 (child of C4) is
+// already finalized, while a competing branch B5..B(5+g+1) forking from C4 has become the only
+// notarized branch; the back-walk depth (lfb_ticket.ahead) is 3 and g, the gap between the
+// newly computed block and the finalized one, ranges over lo..hi. Whatever is handed to the
+// finalization worker must extend the finalized block. (The context is already cancelled, so
+// that the hand-off returns after the first block has been queued.)
+func vC36FinalizeWalk(lo, hi int, label string) {
+	round.SetupEntity(nil)
+	viper.Set("server_chain.lfb_ticket.ahead", 3)
+	c := &Chain{}
+	c.roundsMutex = &sync.RWMutex{}
+	c.rounds = map[int64]round.RoundI{}
+	c.lfbMutex = sync.RWMutex{}
+	c.finalizedBlocksChannel = make(chan *finalizeBlockWithReply, 1)
+	c.viewChanger = vC36NoViewChange{}
+	c.ChainConfig = NewConfigImpl(&ConfigData{})
+	c.Stats = &Stats{}
+	c.MagicBlockStorage = round.NewRoundStartingStorage()
+	mb := block.NewMagicBlock()
+	mb.Miners = node.NewPool(node.NodeTypeMiner)
+	mb.Sharders = node.NewPool(node.NodeTypeSharder)
+	if err := c.MagicBlockStorage.Put(mb, 0); err != nil {
+		panic(err)
+	}
+	mk := func(hash string, rn int64, prev *block.Block) *block.Block {
+		b := &block.Block{}
+		b.Hash = hash
+		b.Round = rn
+		if prev != nil {
+			b.PrevHash = prev.Hash
+			b.PrevBlock = prev
+		}
+		b.SetBlockNotarized()
+		rd := c.rounds[rn]
+		if rd == nil {
+			rd = round.NewRound(rn)
+			c.rounds[rn] = rd
+		}
+		rd.AddNotarizedBlock(b)
+		return b
+	}
+	var prev *block.Block
+	for i := int64(1); i <= 4; i++ {
+		prev = mk([]string{"", "C1", "C2", "C3", "C4"}[i], i, prev)
+	}
+	c4 := prev
+	a5 := mk("A5", 5, c4)
+	c.LatestFinalizedBlock = a5
+	gap := sym.Choice("gap", lo, hi)
+	b := mk("B5", 5, c4)
+	top := int64(5 + gap + 1)
+	for rn := int64(6); rn <= top; rn++ {
+		b = mk(fmt.Sprintf("B%d", rn), rn, b)
+	}
+	// only the B branch is notarized in the latest rounds
+	r := c.rounds[top]
+	ctx, cancel := context.WithCancel(context.Background())
+	cancel()
+	c.finalizeRound(ctx, r)
+	sym.Cover("finalize-round-returned")
+	select {
+	case fbr := <-c.finalizedBlocksChannel:
+		sym.Cover("block-handed-over")
+		sym.Assert(fbr.block.PrevHash == a5.Hash || fbr.block.Hash == a5.Hash, label)
+	default:
+	}
+}
+
+// within the back-walk depth the walk reaches the finalized round and must refuse a foreign branch
+func VerifC36_finalizeWalk() {
+	vC36FinalizeWalk(2, 3, "a block handed to finalization extends the previously finalized block")
+}
+
+// beyond the back-walk depth (recorded finding: no connection check is made at all)
+func VerifC36_finalizeWalkDeep() {
+	vC36FinalizeWalk(4, 4, "a block handed to finalization extends the previously finalized block, also when the newly computed block is more than lfb_ticket.ahead rounds above it")
+}
